@@ -26,6 +26,7 @@
 import EasyMl.Lemmas.Det
 import EasyMl.Lemmas.Transform
 import EasyMl.Props.C03
+import EasyMl.Props.C11
 
 namespace EasyMl.C07
 open EasyMl EasyMl.Det Equiv
@@ -585,4 +586,42 @@ theorem inverse_matMul_identity (heq : LawfulEq K) (a b : ν) (n : Nat) (data : 
     rw [hget i j, hr, Matrix.one_apply]
 
 end Compose
+/-! ### After any history of C11's operations -/
+
+section History
+variable {α : Type} [Add α] [Sub α] [Mul α] [Div α] [Zero α] [One α] [NumOrd α]
+variable {ν : Type} [DecidableEq ν] [Inhabited ν]
+
+/-- **Determinant and inverse after any history.**  For every matrix a program can hold (any
+    constructor, then any finite history of resizing / retaining / mapping operations with any
+    arguments, C11's `Reachable`), `Matrix::determinant` and `Matrix::inverse` answer what the
+    tensor functions answer on C11's list-of-rows state: by `det_congr` / `inverse_congr` and
+    C11's `reachable_headline`. -/
+theorem det_after_history (m : EasyMl.Matrix α) (hr : C11.Reachable m) (names : ν × ν)
+    (hne : names.1 ≠ names.2) :
+    determinant m = determinantTensor (rowsView (C11.abs m)) ∧
+    inverse m = match inverseTensor names (rowsView (C11.abs m)) with
+      | .panic k => .panic k
+      | .ok none => .ok none
+      | .ok (some t) => .ok (some ⟨t.data, m.rows, m.columns⟩) := by
+  have hinv := C11.reachable_inv m hr
+  obtain ⟨_, hsize, hcell, _⟩ := C11.reachable_headline m hr (.op (.removeRow 0))
+  have hrows : m.rows = Rows.nrows (C11.abs m) := congrArg Prod.fst hsize
+  have hcols : m.columns = Rows.ncols (C11.abs m) := congrArg Prod.snd hsize
+  have hc : ∀ r c, r < (viewOfMatrix m).rows → c < (viewOfMatrix m).cols →
+      (viewOfMatrix m).get r c = (rowsView (C11.abs m)).get r c := by
+    intro r c hr' hc'
+    have h1 : r < m.rows := hr'
+    have h2 : c < m.columns := hc'
+    simp only [viewOfMatrix, rowsView]
+    rw [← hcell r c]
+    unfold Matrix.tryGet
+    rw [if_pos ⟨h1, h2⟩, List.getD_eq_getElem?_getD]
+  constructor
+  · rw [determinant_entry_points_agree]
+    exact det_congr _ _ hrows hcols hc
+  · rw [inverse_entry_points_agree names hne m hinv,
+      inverse_congr names (viewOfMatrix m) (rowsView (C11.abs m)) hrows hcols hc]
+
+end History
 end EasyMl.C07
